@@ -272,6 +272,8 @@ def r_apply(ctx, model):
         cap["nrows"] = df.nrows
         cap["fills"] = cap.get("fills", 0) + 1
         out = DFV(df.nrows, {kk: sp.Symbol(f"FILLED_{kk}", real=True) for kk in SYMS21 if kk not in ("c14", "c15")})
+        if getattr(df, "row_perm", None):
+            out.row_perm = list(df.row_perm)          # fill_cij treats the rows independently: they come back in the order they went in
         return out
 
     intr = {"cij.util.fill:fill_cij": fill, "cij.c_": c_intrinsic}
